@@ -378,9 +378,12 @@ def main(argv=None):
     except Exception as e:
         harness_errors.append("pool failure: %r" % (e,))
     if harness_errors:
+        # harness errors are reported apart from violations; the runs that did complete are still judged, so a violation found
+        # next to a run that timed out is not lost (exit 1 with VIOLATION wins over exit 2)
         for h in harness_errors[:5]:
             print("HARNESS-ERROR property=%s %s" % (mod.ID, h))
-        return 2
+        if not results:
+            return 2
     results.sort(key=lambda r: r["index"])
     if a.digests:
         for r in results:
@@ -445,6 +448,9 @@ def main(argv=None):
             print("VIOLATION property=%s replay=%s" % (mod.ID, path))
             nviol += 1
         rc = 1
+    if harness_errors and not rc:
+        print("%s: %d run(s) ended in a harness error — no verdict" % (mod.ID, len(harness_errors)))
+        return 2
     if not a.no_evidence:
         extra = {"known_finding_hits": {k: len(v) for k, v in known_hits.items()}}
         p = write_evidence(mod, tier, a.seed, t0, results, nviol, extra)
